@@ -6,7 +6,7 @@ set -e
 C=${1:-/tmp/cov}; rm -rf $C; mkdir -p $C/bin $C/data
 git -C /repo worktree add -q --detach $C/repo HEAD
 cp -r /verif/harness/* $C/repo/
-( cd $C/repo && for d in routerdrv xportdrv wiredrv limdrv domdrv; do
+( cd $C/repo && for d in routerdrv xportdrv wiredrv limdrv domdrv cachedrv; do
     GOPROXY=off GOSUMDB=off GOTOOLCHAIN=local go build -tags verif -cover \
       -coverpkg=github.com/IrineSistiana/mosproxy/app/...,github.com/IrineSistiana/mosproxy/internal/... \
       -o $C/bin/$d ./internal/zzverif/$d 2>/dev/null; done )
